@@ -161,7 +161,177 @@ def assume_all(I, st, args):
         for k in list(s.root().locals.keys()):
             s.root().locals[k] = _walk(s.root().locals[k], fn)
         out.append((s, new_args))
+    todo = [p for p in STRUCTS if not _direct(R, p)]
+    if todo:
+        out2 = []
+        for s, a in out:
+            out2.extend(_assume_observed(I, s, a, todo))
+        out = out2
     return out
+
+
+STATUS_KEY = '<raw_short_message::RawShortMessage as short_message::ShortMessage>::status_byte'
+
+
+def _direct(R, p):
+    """are the fields the invariant of struct p speaks about returned as they are by the accessors?"""
+    if p == RAW:
+        return R['raw.status'] is not None
+    if p == CC14:
+        return R['cc14.msb'] is not None
+    return R['pnm.is14'] is not None and R['pnm.value'] is not None and R['pnm.data_type'] is not None
+
+
+def _instances(v, want, path=()):
+    out = []
+    if isinstance(v, Ag):
+        if v.path in want:
+            out.append(path)
+        for i, f in enumerate(v.fields):
+            out.extend(_instances(f, want, path + (('f', i),)))
+    elif isinstance(v, Ar):
+        for i, e in enumerate(v.elems[:1] if v.elems and all(e is v.elems[0] for e in v.elems) else v.elems):
+            out.extend(_instances(e, want, path + (('e', i),)))
+    return out
+
+
+def _at(v, path):
+    for k, i in path:
+        v = v.fields[i] if k == 'f' else v.elems[i]
+    return v
+
+
+def _put(v, path, new):
+    if not path:
+        return new
+    k, i = path[0]
+    if k == 'f':
+        fs = list(v.fields)
+        fs[i] = _put(fs[i], path[1:], new)
+        return Ag(v.path, v.variant, fs)
+    es = list(v.elems)
+    if all(e is es[0] for e in es):
+        return Ar([_put(es[0], path[1:], new)] * len(es))
+    es[i] = _put(es[i], path[1:], new)
+    return Ar(es)
+
+
+def observed_alternatives(F, v, cons, ntok):
+    """the invariant of a struct value expressed on what its accessors return:
+    -> [(verdict, text, cons', v', ntok')], one per accessor path; verdict True (holds), False (violated), None (undecided);
+    cons' / v' are refined so that the invariant holds where that is possible (used when *assuming* it)"""
+    from . import view
+    out = []
+    if v.path == RAW:
+        r = view.run_accessor(F, STATUS_KEY, v, cons, ntok)
+        if r is None:
+            return [(None, 'status_byte() could not be interpreted on this value', cons, v, ntok)]
+        for val, c1, v1, n1 in r:
+            if not isinstance(val, Sc):
+                out.append((None, 'status_byte() returns %r' % (val,), c1, v1, n1))
+                continue
+            s = vs_of(val.term, c1)
+            c2 = dict(c1)
+            ok = T.refine(val.term, VS(0x80, 0xFF), c2)
+            out.append((s.subset(VS(0x80, 0xFF)), 'status byte in %r' % s, c2 if ok else None, v1, n1))
+        return out
+    if v.path == CC14:
+        r = view.run_accessor(F, CC14 + '::msb_controller_number', v, cons, ntok)
+        if r is None:
+            return [(None, 'msb_controller_number() could not be interpreted on this value', cons, v, ntok)]
+        for val, c1, v1, n1 in r:
+            x = val
+            while isinstance(x, Ag) and len(x.fields) == 1:
+                x = x.fields[0]
+            if not isinstance(x, Sc):
+                out.append((None, 'msb_controller_number() returns %r' % (val,), c1, v1, n1))
+                continue
+            s = vs_of(x.term, c1)
+            c2 = dict(c1)
+            ok = T.refine(x.term, VS(0, 31), c2)
+            out.append((s.subset(VS(0, 31)), 'msb controller number in %r' % s, c2 if ok else None, v1, n1))
+        return out
+    if v.path == PNM:
+        de = _variant_index(F, DATATYPE, 'DataEntry')
+        r = view.run_accessor(F, PNM + '::is_14_bit', v, cons, ntok)
+        if r is None:
+            return [(None, 'is_14_bit() could not be interpreted on this value', cons, v, ntok)]
+        for b, c1, v1, n1 in r:
+            if not isinstance(b, Sc):
+                out.append((None, 'is_14_bit() returns %r' % (b,), c1, v1, n1))
+                continue
+            bs = vs_of(b.term, c1)
+            if bs.has(0):
+                c0 = dict(c1)
+                if T.refine(b.term, VS.one(0), c0):
+                    rv = view.run_accessor(F, PNM + '::value', v1, c0, n1)
+                    if rv is None:
+                        out.append((None, 'value() could not be interpreted on this value', c0, v1, n1))
+                    for val, c2, v2, n2 in rv or []:
+                        x = val
+                        while isinstance(x, Ag) and len(x.fields) == 1:
+                            x = x.fields[0]
+                        if not isinstance(x, Sc):
+                            out.append((None, 'value() returns %r' % (val,), c2, v2, n2))
+                            continue
+                        s = vs_of(x.term, c2)
+                        c3 = dict(c2)
+                        ok = T.refine(x.term, VS(0, 127), c3)
+                        out.append((s.subset(VS(0, 127)), '7-bit resolution with value in %r' % s, c3 if ok else None, v2, n2))
+            if bs.has(1):
+                c0 = dict(c1)
+                if T.refine(b.term, VS.one(1), c0):
+                    rd = view.run_accessor(F, PNM + '::data_type', v1, c0, n1)
+                    if rd is None:
+                        out.append((None, 'data_type() could not be interpreted on this value', c0, v1, n1))
+                    for dt, c2, v2, n2 in rd or []:
+                        if isinstance(dt, Ag):
+                            out.append((dt.variant == de, '14-bit resolution with data type variant %d' % dt.variant,
+                                        c2 if dt.variant == de else None, v2, n2))
+                        else:
+                            out.append((False if isinstance(dt, Un) else None, '14-bit resolution possible with unconstrained data type', None, v2, n2))
+        return out
+    return [(True, '', cons, v, ntok)]
+
+
+def _assume_observed(I, st, args, todo):
+    """alternatives (state, args) in which every instance of the structs in `todo` satisfies its invariant as observed
+    through the accessors (paths on which it cannot hold are dropped; undecided ones are kept unrestricted)"""
+    alts = [(st, list(args))]
+    # argument values
+    for ai in range(len(args)):
+        for path in _instances(args[ai], todo):
+            nxt = []
+            for s, a in alts:
+                v = _at(a[ai], path)
+                for verdict, text, c2, v2, n2 in observed_alternatives(I.F, v, s.cons, s.ntok):
+                    if c2 is None and verdict is not None:
+                        continue                      # the invariant cannot hold on this accessor path
+                    s2 = s.clone()
+                    if c2 is not None:
+                        s2.cons = dict(c2)
+                    s2.ntok = max(s2.ntok, n2)
+                    a2 = list(a)
+                    a2[ai] = _put(a2[ai], path, v2)
+                    nxt.append((s2, a2))
+            alts = nxt or alts
+    # values in root memory (referents of reference arguments)
+    for name in sorted(k for k in st.root().locals.keys() if isinstance(k, str)):
+        for path in _instances(st.root().locals[name], todo):
+            nxt = []
+            for s, a in alts:
+                v = _at(s.root().locals[name], path)
+                for verdict, text, c2, v2, n2 in observed_alternatives(I.F, v, s.cons, s.ntok):
+                    if c2 is None and verdict is not None:
+                        continue
+                    s2 = s.clone()
+                    if c2 is not None:
+                        s2.cons = dict(c2)
+                    s2.ntok = max(s2.ntok, n2)
+                    s2.root().locals[name] = _put(s2.root().locals[name], path, v2)
+                    nxt.append((s2, a))
+            alts = nxt or alts
+    return alts
 
 
 def _variant_index(F, path, name):
@@ -179,6 +349,15 @@ def holds_at_ctor(I, st, v):
     if v.path not in STRUCTS:
         return None
     R = roles(I.F)
+    if not _direct(R, v.path):
+        alts = observed_alternatives(I.F, v, st.cons, st.ntok)
+        bad = [a for a in alts if a[0] is False]
+        und = [a for a in alts if a[0] is None]
+        if bad:
+            return (False, '; '.join(a[1] for a in bad[:2]) + ' (as observed through the accessors)')
+        if und or not alts:
+            return (None, '; '.join(a[1] for a in und[:2]) or 'no accessor path')
+        return (True, '; '.join(sorted(set(a[1] for a in alts))[:3]) + ' (as observed through the accessors)')
     if v.path == RAW:
         if R['raw.status'] is None:
             return (None, 'cannot locate the status byte field (status_byte accessor not interpretable)')
